@@ -452,12 +452,12 @@ def adapters(ck):
           key="FunctionHandler::process|return")
 
 
-def logmessage(ck):
+def logmessage(ck, rid=rid):
     F = ck.facts
     rec = F.record(LM)
     nonconst = sorted(f["name"] for f in rec["fields"] if not f["const"])
     ok = nonconst == ["m_attributes", "m_formattedMessage"]
-    ck.ob("C01-O6", "logmessage.h (LogMessage)", ok, "the only mutable parts of a message are %s" % nonconst, key="LogMessage|mutable-fields")
+    ck.ob(rid, "logmessage.h (LogMessage)", ok, "the only mutable parts of a message are %s" % nonconst, key="LogMessage|mutable-fields")
     fm = F.fn(LM + "::formattedMessage")
     isf = F.fn(LM + "::isFormatted")
     ck.touch(fm, isf)
@@ -466,20 +466,20 @@ def logmessage(ck):
     for val, field in ((True, "m_formattedMessage"), (False, "m_message")):
         rv = return_values_under(fm, g, atom_eq(isfmt, val))
         ok = bool(rv) and all(is_this_field(v, LM + "::" + field) for _, v in rv)
-        ck.ob("C01-O6", sitestr(fm), ok, "formattedMessage() returns %s when isFormatted() is %s" % (field, val) if ok else
+        ck.ob(rid, sitestr(fm), ok, "formattedMessage() returns %s when isFormatted() is %s" % (field, val) if ok else
               "formattedMessage() returns %s when isFormatted() is %s" % ([describe(v) for _, v in rv], val), key="LogMessage::formattedMessage|%s" % val)
     g2 = Graph(isf)
     isnull = lambda n: is_call(n, "QString::isNull") and is_this_field(skip_copies(n).get("obj"), LM + "::m_formattedMessage")
     other_tests = [n for n in isf.calls() if n.get("ck") == "member" and is_this_field(n.get("obj"), LM + "::m_formattedMessage") and not isnull(n)]
     if other_tests:
-        ck.ob("C01-O6", sitestr(isf, other_tests[0]), False, "isFormatted() tests %s instead of the null state (an empty formatted text would count as unformatted)" % describe(other_tests[0]),
+        ck.ob(rid, sitestr(isf, other_tests[0]), False, "isFormatted() tests %s instead of the null state (an empty formatted text would count as unformatted)" % describe(other_tests[0]),
               key="LogMessage::isFormatted|not-null-test")
     else:
         for val in (True, False):
             rs = returns(isf)
             vals = [eval_cond(r.get("e"), atom_eq(isnull, val)) for r in rs if g2.site_of(r) in g2.live(g2.projector(atom_eq(isnull, val)))]
             ok = bool(vals) and all(v is (not val) for v in vals)
-            ck.ob("C01-O6", sitestr(isf), ok if all(v is not None for v in vals) else None, "isFormatted() is %s when the formatted text is%s null" % (not val, "" if val else " not"),
+            ck.ob(rid, sitestr(isf), ok if all(v is not None for v in vals) else None, "isFormatted() is %s when the formatted text is%s null" % (not val, "" if val else " not"),
                   key="LogMessage::isFormatted|%s" % val)
     # setters
     for name, field, how in (("setFormattedMessage", "m_formattedMessage", "assign"), ("setAttributes", "m_attributes", "assign"), ("updateAttributes", "m_attributes", "merge")):
@@ -496,16 +496,16 @@ def logmessage(ck):
             # merging an empty set changes nothing: a path that skips the merge is fine exactly when the argument is empty
             emp = lambda n_: is_call(n_, ("isEmpty", "empty")) and is_ref_to(skip_copies(n_).get("obj"), fn.params[0]["decl"])
             ok = g3.must_pass(set(g3.sites_of_nodes(nodes)), keep=g3.projector(atom_eq(emp, False)))
-        ck.ob("C01-O6", sitestr(fn), ok, "%s() %ss its argument to %s on every path" % (name, how, field) if ok else "%s() no longer %ss its argument to %s on every path" % (name, how, field),
+        ck.ob(rid, sitestr(fn), ok, "%s() %ss its argument to %s on every path" % (name, how, field) if ok else "%s() no longer %ss its argument to %s on every path" % (name, how, field),
               key="LogMessage::%s|effect" % name)
         others = [w for w in field_writes(F, LM + "::m_formattedMessage") + field_writes(F, LM + "::m_attributes") if w[0].id == fn.id and w[1].get("id") not in [skip_copies(n.get("args", [{}])[0]).get("id") if n.get("ck") == "operator" else skip_copies(n.get("obj")).get("id") for n in nodes]]
-        ck.ob("C01-O6", sitestr(fn), not others, "%s() writes nothing else" % name if not others else "%s() also writes %s" % (name, [describe(w[1]) for w in others]),
+        ck.ob(rid, sitestr(fn), not others, "%s() writes nothing else" % name if not others else "%s() also writes %s" % (name, [describe(w[1]) for w in others]),
               key="LogMessage::%s|extra-write" % name)
     for name, field in (("attributes", "m_attributes"),):
         fn = F.fn(LM + "::" + name)
         rs = returns(fn)
         ok = len(rs) == 1 and is_this_field(rs[0].get("e"), LM + "::" + field)
-        ck.ob("C01-O6", sitestr(fn), ok, "%s() returns %s" % (name, field), key="LogMessage::%s|return" % name)
+        ck.ob(rid, sitestr(fn), ok, "%s() returns %s" % (name, field), key="LogMessage::%s|return" % name)
     # who writes the two fields at all (informational: a new setter is an API extension, not a violation)
     for fld in ("m_formattedMessage", "m_attributes"):
         for fn, n, how in field_writes(F, LM + "::" + fld):
